@@ -100,7 +100,7 @@ def gen_case(seed, i, mode):
     session2 = r.choice(('none', 'close', 'close', 'vanish', 'vanish'))
     case = {
         'callers': callers, 'main_prepare': r.random() < 0.3, 'gran': gran, 'sched': sched,
-        'launch_delays': delays, 'session2': session2,
+        'launch_delays': delays, 'session2': session2, 'analyse': r.random() < 0.25,
         'vanish_at': r.choice(('idle', 'after_send', 'in_request', 'after_reply')),
         'faults': {},
     }
@@ -300,6 +300,13 @@ class Run(object):
             elif kind == 'close':
                 env.close()
                 res = None
+            elif kind == 'analyse':
+                root = os.path.join(os.environ.get('VERIF_SCRATCH', '/tmp'), 'vsim-c16-none')
+                env.configure({'sources': [root]})
+                res = env.assist('import json\njson.\n', (2, 5), os.path.join(root, 'zqx.py'))
+                if not (isinstance(res, list) and len(res) == 2 and 'dumps' in res[1]):
+                    raise AssertionError('unexpected assist reply %r' % (res,))
+                res = None
             self.op_log.append((who, kind, 'ok', res if isinstance(res, str) else None))
             return True, res
         except KernelAbort:
@@ -373,6 +380,13 @@ class Run(object):
                      'tokens sent %r, tokens answered %r' % (sorted(self.sent), sorted(self.answered)))
         if used and not hasattr(env, 'conn'):
             self.vio('C16/session1/no-connection', 'a server was requested but the client has no connection')
+
+        # ---- optionally a request that makes the server analyse (and cache) a module before the session ends
+        if case.get('analyse') and used:
+            ok, res = self.do_op('main', ['analyse'])
+            if not ok:
+                e, where, tb = res
+                self.vio('C16/exception/analyse/%s:%s' % (type(e).__name__, where), tb[-1500:])
 
         # ---- close
         ok, res = self.do_op('main', ['close'])
